@@ -13,7 +13,7 @@ pub fn prop() -> Prop {
     Prop {
         id: "C13",
         level: "model_checking",
-        rule: "(a) every alias of every function against the canonical name on every documented example and on every argument tuple (arity <=3) over 6 atoms of all types; (b) 48 expressions (a third reading :v, @m, a selected name or ^ after --split-by) as --select (first and later), --filter, --sort-by (both directions), --group-by, --split-by, --set macro and --set variable, the late positions also behind another --select over all sequences of <=3 (thorough <=4) values over 5 records; (c) 40 expressions in 14 spellings (separators blank, comma, comma-blank, two blanks, tab, newline; padding before the closing parenthesis; leading-dot sugar; a comma directly after a variable, macro, key, number, string) (d) --regular-expression-cache-size in {0,1,2,64} x all sequences of <=2 (thorough <=3) (subject, pattern) pairs over 4 subjects x 6 patterns and of <=4 (thorough <=5) over a 12-pair core (one invalid pattern; two pairs whose pattern+subject texts glue to the same string) through match and extract_regex_group, and sequences with 0/1/2/7 more distinct patterns than a cache of 2/3/16/64 holds, each revisited; non-trivial = the compared forms differ textually and the value is not nothing; distinct by construction",
+        rule: "(a) every alias of every function against the canonical name on every documented example and on every argument tuple (arity <=3) over 6 atoms of all types; (b) 48 expressions (a third reading :v, @m, a selected name or ^ after --split-by) as --select (first and later), --filter, --sort-by (both directions), --group-by, --split-by, --set macro and --set variable, the late positions also behind another --select over all sequences of <=3 (thorough <=4) values over 5 records; (c) 40 expressions, and 22 big ones (nesting depth 9..65, 9..130 arguments, literals and names of 31..300 characters), in 14 spellings (separators blank, comma, comma-blank, two blanks, tab, newline; padding before the closing parenthesis; leading-dot sugar; a comma directly after a variable, macro, key, number, string) (d) --regular-expression-cache-size in {0,1,2,64} x all sequences of <=2 (thorough <=3) (subject, pattern) pairs over 4 subjects x 6 patterns and of <=4 (thorough <=5) over a 12-pair core (one invalid pattern; two pairs whose pattern+subject texts glue to the same string) through match and extract_regex_group, and sequences with 0/1/2/7 more distinct patterns than a cache of 2/3/16/64 holds, each revisited; non-trivial = the compared forms differ textually and the value is not nothing; distinct by construction",
         explanation: "differential inside the implementation (same run, several selections; or the rows kept / ordered / grouped / produced versus the values the same expression has as a selection) and, for the regex cache, against the regex crate called directly",
         assumptions: COMMON_ASSUMPTIONS.to_vec(),
         guards: vec!["more-patterns-than-the-cache-holds", "alias-with-value", "filter-kept-and-dropped", "sort-reordered", "group-two-keys", "split-produced-rows", "comma-after-variable", "dot-sugar", "cache-eviction", "invalid-pattern", "macro-position", "variable-position"],
@@ -380,9 +380,34 @@ fn styles() -> Vec<(&'static str, Style)> {
     ]
 }
 
+/// expressions beyond the usual sizes: deep nesting, many arguments, long literals, long names
+fn big_exprs() -> Vec<String> {
+    let mut v = Vec::new();
+    for depth in [9usize, 17, 33, 65] {
+        let mut e = ".n".to_string();
+        for i in 0..depth {
+            e = if i % 2 == 0 { format!("(+ 1 {e})") } else { format!("(| {e} (+ . 1))") };
+        }
+        v.push(e);
+    }
+    for n in [9usize, 33, 130] {
+        v.push(format!("(+ {} .n)", (1..=n).map(|i| i.to_string()).collect::<Vec<_>>().join(" ")));
+        v.push(format!("(push [] {} :v)", (0..n).map(|i| format!("\"s{i}\"")).collect::<Vec<_>>().join(" ")));
+    }
+    for n in [31usize, 32, 33, 64, 300] {
+        v.push(format!("(concat \"{}\" .k)", "q".repeat(n)));
+        v.push(format!("(len \"{}\u{e9}\")", "q".repeat(n)));
+        v.push(format!("(get (put {{}} \"{}\" :v) \"{}\")", "k".repeat(n), "k".repeat(n)));
+    }
+    v.push("(set \"a-rather-long-variable-name-0123456789-0123456789\" .n (+ :a-rather-long-variable-name-0123456789-0123456789 :v))".to_string());
+    v
+}
+
 fn spelling_part(ctx: &mut Ctx) {
     let sts = styles();
-    for (ei, t) in SPELL.iter().enumerate() {
+    let big = big_exprs();
+    let all: Vec<&str> = SPELL.iter().copied().chain(big.iter().map(|s| s.as_str())).collect();
+    for (ei, t) in all.iter().enumerate() {
         if !ctx.mine() {
             continue;
         }
